@@ -14,7 +14,9 @@ name=${id}${v}${suffix}
 root=/tmp/sv/$name
 [ -f $src/patch.diff ] && [ -f $src/demo.rs ] && [ -f $src/meta.json ] || { echo "$name MISSING-DELIVERABLES"; exit 2; }
 rm -rf $root; mkdir -p $root
-git -C /repo worktree add --detach -q $root/repo HEAD || exit 2
+base=HEAD
+git -C /repo apply --check $src/patch.diff 2>/dev/null || base=${SEED_BASE:-d08ca43}
+git -C /repo worktree add --detach -q $root/repo $base || exit 2
 cp /repo/Cargo.lock $root/repo/Cargo.lock
 export CARGO_NET_OFFLINE=true CARGO_TERM_COLOR=never CARGO_TARGET_DIR=/tmp/sv/target-$id
 demo_path=$(python3 -c "import json;print(json.load(open('$src/meta.json'))['demo_path'])")
@@ -36,13 +38,14 @@ git -C /repo worktree remove --force $root/repo
 verdict="unconfirmed"
 if [ $clean = 0 ] && [ $patched != 0 ] && [ $suite = 0 ] && [ $nfail = 0 ]; then verdict="confirmed"; fi
 echo "$name $verdict"
-res=$(MT_TARGET=/tmp/mt/target-sv /verif/tools/mutant.sh sv_$name $src/patch.diff $checks 2>&1 | grep -v "WARNING conda")
+export SEED_BASE_USED=$(git -C /repo rev-parse --short $base)
+res=$(MT_BASE=$SEED_BASE_USED MT_TARGET=/tmp/mt/target-sv /verif/tools/mutant.sh sv_$name $src/patch.diff $checks 2>&1 | grep -v "WARNING conda")
 echo "$res"
 if [ "$verdict" = confirmed ]; then
   d=/verif/seeded/$name; mkdir -p $d
   cp $src/patch.diff $d/patch.diff; cp $src/demo.rs $d/demo.rs
   python3 - "$src/meta.json" "$d/meta.json" "$name" "$checks" "$res" <<'PY'
-import json,sys
+import json,sys,os
 m=json.load(open(sys.argv[1]))
 m['seed_id']=sys.argv[3]
 m['round']=int(sys.argv[3][-1]) if sys.argv[3][-1].isdigit() else 1
@@ -50,6 +53,7 @@ if m['round']==3: m['round_note']='third round: the sub-agent was given the prop
 elif m['round']==2: m['round_note']='second round: the sub-agent was additionally told that the tool enumerates small scopes exhaustively and was asked for defects likely to escape small-scope enumeration'
 else: m['round_note']='first round: the sub-agent was given only the text of the property and a scratch worktree' 
 m['confirmed']={'demo_on_clean_tree':'passes','demo_with_patch':'fails','repository_suite_with_patch':'passes (cargo test --workspace --no-fail-fast --offline)','how':'tools/seedcheck.sh in a scratch worktree of /repo'}
+m['base_commit']=os.environ.get('SEED_BASE_USED','') or m.get('base_commit') or 'HEAD at the time (see git log of /verif)'
 m['checks_run']=sys.argv[4].split()
 m['check_results']=[l for l in sys.argv[5].splitlines() if l.strip()]
 import os
